@@ -213,32 +213,63 @@ pub fn real_stream(bytes: &[u8], toks: &mut Toks) -> Result<Vec<u64>, String> {
     Ok(out)
 }
 
-/// wrappers.rs::convert_component_type is applied to the types *declared inside* component / instance
-/// types; its `Stream(None)` arm calls `def_enc.future(None)`.  For every component-type item (at any depth)
-/// that contains such a nested payload-less stream: (token of the item, token of the item with those streams
-/// turned into futures).  The second token is obtained by re-encoding the edited item with wasm-encoder's
-/// RoundtripReencoder, and only if re-encoding the *unedited* item reproduces the original bytes.
-fn mutate_nested(ty: &mut wasmparser::ComponentType) -> bool {
-    use wasmparser::{ComponentDefinedType as D, ComponentType as T};
-    match ty {
-        T::Defined(D::Stream(None)) => { *ty = T::Defined(D::Future(None)); true }
-        T::Component(ds) => { let mut ch = false; for d in ds.iter_mut() { if let wasmparser::ComponentTypeDeclaration::Type(t) = d { ch |= mutate_nested(t); } } ch }
-        T::Instance(ds) => { let mut ch = false; for d in ds.iter_mut() { if let wasmparser::InstanceTypeDeclaration::Type(t) = d { ch |= mutate_nested(t); } } ch }
-        _ => false,
+/// How `encode_comp` + wrappers.rs re-encode one component-type item, expressed as wasm-encoder's own
+/// RoundtripReencoder with exactly the deviating arms overridden:
+///  * 28: wrappers.rs::convert_component_type -- applied to the types *declared inside* component / instance
+///        types -- encodes `Stream(None)` with `def_enc.future(None)`;
+///  * 29: wrappers.rs::convert_instance_type (every instance type) and convert_component_type's Component arm
+///        (component types that are themselves nested) re-encode the members of a core rec group one by one
+///        (`for sub in recgroup.types() { encode_core_type_subtype(..) }`), so an *explicit* rec group comes back
+///        as separate types.
+/// The quirks that fired are recorded.  For every component-type item (at any depth) on which one fires, the
+/// case carries (token of the item, token of the re-encoded item, class) -- only if the plain RoundtripReencoder
+/// reproduces the item's original bytes, so that tokens of both encodings are comparable.
+struct Quirks { on: bool, depth: u32, fired: Vec<u64> }
+impl wasm_encoder::reencode::Reencode for Quirks { type Error = std::convert::Infallible; }
+impl wasm_encoder::reencode::ReencodeComponent for Quirks {
+    fn push_depth(&mut self) { self.depth += 1; }
+    fn pop_depth(&mut self) { self.depth -= 1; }
+    fn parse_component_defined_type(&mut self, defined: wasm_encoder::ComponentDefinedTypeEncoder<'_>, ty: wasmparser::ComponentDefinedType<'_>) -> Result<(), wasm_encoder::reencode::Error<Self::Error>> {
+        if self.on && self.depth > 0 {
+            if let wasmparser::ComponentDefinedType::Stream(None) = ty {
+                if !self.fired.contains(&28) { self.fired.push(28); }
+                defined.future(None);
+                return Ok(());
+            }
+        }
+        wasm_encoder::reencode::component_utils::parse_component_defined_type(self, defined, ty)
+    }
+    fn parse_component_instance_type_declaration(&mut self, ity: &mut wasm_encoder::InstanceType, decl: wasmparser::InstanceTypeDeclaration<'_>) -> Result<(), wasm_encoder::reencode::Error<Self::Error>> {
+        use wasm_encoder::reencode::Reencode;
+        if self.on {
+            if let wasmparser::InstanceTypeDeclaration::CoreType(wasmparser::CoreType::Rec(g)) = &decl {
+                if g.is_explicit_rec_group() {
+                    if !self.fired.contains(&29) { self.fired.push(29); }
+                    for sub in g.types() { let st = self.sub_type(sub.clone())?; ity.core_type().core().subtype(&st); }
+                    return Ok(());
+                }
+            }
+        }
+        wasm_encoder::reencode::component_utils::parse_component_instance_type_declaration(self, ity, decl)
+    }
+    fn parse_component_type_declaration(&mut self, cty: &mut wasm_encoder::ComponentType, decl: wasmparser::ComponentTypeDeclaration<'_>) -> Result<(), wasm_encoder::reencode::Error<Self::Error>> {
+        use wasm_encoder::reencode::Reencode;
+        if self.on && self.depth >= 2 {
+            if let wasmparser::ComponentTypeDeclaration::CoreType(wasmparser::CoreType::Rec(g)) = &decl {
+                if g.is_explicit_rec_group() {
+                    if !self.fired.contains(&29) { self.fired.push(29); }
+                    for sub in g.types() { let st = self.sub_type(sub.clone())?; cty.core_type().core().subtype(&st); }
+                    return Ok(());
+                }
+            }
+        }
+        wasm_encoder::reencode::component_utils::parse_component_type_declaration(self, cty, decl)
     }
 }
-fn mutate_top(ty: &mut wasmparser::ComponentType) -> bool {
-    use wasmparser::ComponentType as T;
-    match ty {
-        T::Component(ds) => { let mut ch = false; for d in ds.iter_mut() { if let wasmparser::ComponentTypeDeclaration::Type(t) = d { ch |= mutate_nested(t); } } ch }
-        T::Instance(ds) => { let mut ch = false; for d in ds.iter_mut() { if let wasmparser::InstanceTypeDeclaration::Type(t) = d { ch |= mutate_nested(t); } } ch }
-        _ => false,
-    }
-}
-fn reencode_type_item(ty: wasmparser::ComponentType) -> Option<Vec<u8>> {
-    use wasm_encoder::reencode::{ReencodeComponent, RoundtripReencoder};
+fn reencode_type_item(ty: wasmparser::ComponentType, q: &mut Quirks) -> Option<Vec<u8>> {
+    use wasm_encoder::reencode::ReencodeComponent;
     let mut sec = wasm_encoder::ComponentTypeSection::new();
-    RoundtripReencoder.parse_component_type(sec.ty(), ty).ok()?;
+    q.parse_component_type(sec.ty(), ty).ok()?;
     let mut c = wasm_encoder::Component::new();
     c.section(&sec);
     let bytes = c.finish();
@@ -251,27 +282,30 @@ fn reencode_type_item(ty: wasmparser::ComponentType) -> Option<Vec<u8>> {
     }
     None
 }
-pub fn collect_sf(bytes: &[u8], toks: &mut Toks) -> Vec<(u64, u64)> {
+/// (item token, re-encoded item token) for the model, (item token, class) for the classifier
+pub fn collect_sf(bytes: &[u8], toks: &mut Toks) -> (Vec<(u64, u64)>, Vec<(u64, u64)>) {
     let mut sf: Vec<(u64, u64)> = vec![];
+    let mut cls: Vec<(u64, u64)> = vec![];
     for p in Parser::new(0).parse_all(bytes) {
         if let Ok(Payload::ComponentTypeSection(r)) = p {
             let end = r.range().end;
             let mut its = vec![];
-            for it in r.into_iter_with_offsets() { match it { Ok(x) => its.push(x), Err(_) => return sf } }
+            for it in r.into_iter_with_offsets() { match it { Ok(x) => its.push(x), Err(_) => return (sf, cls) } }
             for i in 0..its.len() {
                 let raw = &bytes[its[i].0..if i + 1 < its.len() { its[i + 1].0 } else { end }];
-                let mut edited = its[i].1.clone();
-                if !mutate_top(&mut edited) { continue; }
-                if reencode_type_item(its[i].1.clone()).as_deref() != Some(raw) { continue; }
-                if let Some(e) = reencode_type_item(edited) {
-                    let a = toks.get(12, raw);
-                    let b = toks.get(12, &e);
-                    if !sf.contains(&(a, b)) { sf.push((a, b)); }
-                }
+                let mut q = Quirks { on: true, depth: 0, fired: vec![] };
+                let edited = match reencode_type_item(its[i].1.clone(), &mut q) { Some(e) => e, None => continue };
+                if q.fired.is_empty() { continue; }
+                let mut plain = Quirks { on: false, depth: 0, fired: vec![] };
+                if reencode_type_item(its[i].1.clone(), &mut plain).as_deref() != Some(raw) { continue; }
+                let a = toks.get(12, raw);
+                let b = toks.get(12, &edited);
+                if a != b && !sf.contains(&(a, b)) { sf.push((a, b)); }
+                if a != b { for k in q.fired { if !cls.contains(&(a, k)) { cls.push((a, k)); } } }
             }
         }
     }
-    sf
+    (sf, cls)
 }
 
 pub fn coq_nodes(v: &[Node], keep_customs: bool) -> String {
@@ -336,8 +370,8 @@ fn case_of(seed: u64, idx: u64, label: &str, bytes: &[u8], extra_tags: Vec<Strin
         Obs::Undecodable => "OUndecodable".to_string(),
         Obs::Tree(t, v) => format!("(OTree {} {})", coq_nodes(t, false), coq_bool(*v)),
     };
-    let sf = collect_sf(bytes, &mut toks);
-    let coq = format!("mkCase {} {} {} {} {}", coq_nodes(&tree, true), coq_bool(valid_in), coq_list(&sf, |(a, b)| format!("({a}, {b})")), coq_list(&stream, |x| x.to_string()), obs_s);
+    let (sf, cls) = collect_sf(bytes, &mut toks);
+    let coq = format!("mkCase {} {} {} {} {} {}", coq_nodes(&tree, true), coq_bool(valid_in), coq_list(&sf, |(a, b)| format!("({a}, {b})")), coq_list(&cls, |(a, b)| format!("({a}, {b})")), coq_list(&stream, |x| x.to_string()), obs_s);
     let d = depth(&tree);
     let obs_d = match &obs {
         Obs::Panic => "PANIC".to_string(),
@@ -446,6 +480,7 @@ fn main() {
     let footer = format!("Eval vm_compute in (report_{} cases).", args.prop);
     let fx = fixtures();
     let wit = comp_gen::witnesses();
+    let witb = comp_gen::witnesses_bytes();
     if args.flags.iter().any(|f| f == "--list-fixtures") {
         for (i, (n, b)) in fx.iter().enumerate() { println!("{} {} {} valid={}", i, n, b.len(), validates(b)); }
         return;
@@ -453,10 +488,14 @@ fn main() {
     // the fixtures and witnesses are appended after the generated cases unless a single case is asked for
     let mut a2 = Args { prop: args.prop.clone(), seed: args.seed, n: args.n, shards: args.shards, out: args.out.clone(), only: args.only, extra: args.extra.clone(), flags: args.flags.clone() };
     if a2.only.is_none() && !args.flags.iter().any(|f| f == "--no-fixtures") {
-        for i in 0..wit.len() as u64 { a2.extra.push((0, WITNESS_BASE + i)); }
+        for i in 0..(wit.len() + witb.len()) as u64 { a2.extra.push((0, WITNESS_BASE + i)); }
         for i in 0..fx.len() as u64 { a2.extra.push((0, FIXTURE_BASE + i)); }
     }
     run_shards(&a2, header, "ccase", &footer, |seed, idx| {
+        if idx >= WITNESS_BASE + wit.len() as u64 {
+            let (name, b) = &witb[(idx - WITNESS_BASE) as usize - wit.len()];
+            return case_of(seed, idx, &format!("witness {}", name), b, vec!["src=witness".into()]);
+        }
         if idx >= WITNESS_BASE {
             let (name, wat_text) = &wit[(idx - WITNESS_BASE) as usize];
             let b = wat::parse_str(wat_text).expect("witness assembles");
